@@ -95,6 +95,8 @@ theorem equal_kind (a b : GoVal) (hk : kindOf (strip a) ≠ kindOf (strip b))
 
 example : opEq (.int .int 1) (.str [49]) = .ok false ∧ opEq (.bool true) (.int .int 1) = .ok false ∧
     opEq (.slice .any []) (.map .str .any []) = .ok false := by decide +kernel
+example : opEq (.int .int 1) (.drop (.str [49])) = .ok false :=
+  equal_kind _ _ (by decide +kernel) (by decide +kernel) (by decide +kernel)
 
 /-- arrays are equal exactly when they have the same length and are element-wise equal -/
 theorem equal_array (a b : GoVal) (xs ys : List GoVal) (ha : seqElems (strip a) = some xs)
@@ -111,6 +113,10 @@ example : (seqElems (strip (.drop (.array (.int .int) [.int .int 1, .int .int 2]
     opEq (.slice .any [.int .int 1]) (.slice .any [.int .int 1, .int .int 2]) = .ok false ∧
     opEq (.slice .any [.slice .any [.int .int 1]]) (.slice .any [.slice .any [.int .int 2]]) = .ok false := by
   decide +kernel
+example : ([GoVal.int .int 1, .int .int 2].length = [GoVal.flt .f64 1, .int .u8 2].length) ∧
+    ∀ i (h : i < 2) (h' : i < 2), equal [GoVal.int .int 1, .int .int 2][i] [GoVal.flt .f64 1, .int .u8 2][i] = .ok true :=
+  (equal_array (.drop (.array (.int .int) [.int .int 1, .int .int 2])) (.slice .any [.flt .f64 1, .int .u8 2])
+    _ _ (by rfl) (by rfl)).1 (by decide +kernel)
 
 /-- numbers compare by numeric value: integers of all ten widths exactly, an integer with a float
 when it is in the range `float64` represents exactly -/
@@ -132,6 +138,12 @@ example : opEq (.int .u64 18446744073709551615) (.int .int (-1)) = .ok false ∧
     opEq (.int .u8 200) (.int .i64 200) = .ok true ∧ opEq (.int .u16 2) (.flt .f32 2) = .ok true ∧
     -- beyond 2^53 the join type decides: 2^53+1 converts to 2^53
     opEq (.int .i64 9007199254740993) (.flt .f64 9007199254740992) = .ok true := by decide +kernel
+example : opEq (.int .u8 200) (.ptr (.flt .f64 200)) = .ok (decide ((200 : Rat) = 200)) :=
+  equal_num _ _ 200 200 (by decide +kernel) (by decide +kernel) (by decide +kernel) (by decide +kernel)
+    (by decide +kernel) (by decide +kernel)
+example : opEq (.int .i64 9007199254740993) (.flt .f64 9007199254740992) =
+    .ok (decide ((9007199254740992 : Rat) = 9007199254740992)) :=
+  equal_num_join _ _ _ _ (by decide +kernel) (by decide +kernel) (by decide +kernel) (by decide +kernel)
 
 /-! ## Ordering -/
 
@@ -151,6 +163,13 @@ theorem less_num_join (a b : GoVal) (p q : Rat) (hp : joinVal (strip a) (strip b
 example : opLt (.int .int (-1)) (.int .u64 18446744073709551615) = .ok true ∧
     opLt (.int .u64 9223372036854775808) (.int .i64 9223372036854775807) = .ok false ∧
     opLt (.int .u8 1) (.flt .f64 (3/2)) = .ok true := by decide +kernel
+example : opLt (.int .i64 (-5)) (.int .u64 18446744073709551615) =
+    .ok (decide ((-5 : Rat) < 18446744073709551615)) :=
+  less_num _ _ _ _ (by decide +kernel) (by decide +kernel) (by decide +kernel) (by decide +kernel)
+    (by decide +kernel) (by decide +kernel)
+example : opLt (.int .u64 18446744073709551615) (.flt .f64 18446744073709551616) =
+    .ok (decide ((18446744073709551616 : Rat) < 18446744073709551616)) :=
+  less_num_join _ _ _ _ (by decide +kernel) (by decide +kernel) (by decide +kernel) (by decide +kernel)
 
 /-- strings are ordered lexicographically on their bytes (`List`'s `<`) -/
 theorem less_str (a b : GoVal) (s t : Bytes) (ha : strip a = .str s) (hb : strip b = .str t) :
@@ -159,6 +178,8 @@ theorem less_str (a b : GoVal) (s t : Bytes) (ha : strip a = .str s) (hb : strip
 
 example : opLt (.str [49, 48]) (.str [57]) = .ok true ∧ opLt (.str [97]) (.str [97, 98]) = .ok true ∧
     opLt (.str [98]) (.str [97, 98]) = .ok false := by decide +kernel
+example : opLt (.drop (.str [49, 48])) (.str [57]) = .ok (decide (([49, 48] : Bytes) < [57])) :=
+  less_str _ _ _ _ (by rfl) (by rfl)
 
 /-- an ordering between unlike kinds is false -/
 theorem less_unlike (a b : GoVal) (hk : kindOf (strip a) ≠ kindOf (strip b))
@@ -167,6 +188,8 @@ theorem less_unlike (a b : GoVal) (hk : kindOf (strip a) ≠ kindOf (strip b))
 
 example : opLt (.int .int 1) (.str [50]) = .ok false ∧ opGt (.int .int 1) (.str [50]) = .ok false := by
   decide +kernel
+example : opLt (.slice .any []) (.drop (.int .u8 3)) = .ok false :=
+  less_unlike _ _ (by decide +kernel) (by decide +kernel) (by decide +kernel)
 
 /-- an ordering with nil is false -/
 theorem less_nil (a b : GoVal) (h : (strip a).isNil = true ∨ (strip b).isNil = true) :
@@ -175,6 +198,7 @@ theorem less_nil (a b : GoVal) (h : (strip a).isNil = true ∨ (strip b).isNil =
 
 example : opLt .nil (.int .int 1) = .ok false ∧ opLt (.int .int 1) .nil = .ok false ∧
     opLe .nil .nil = .ok true := by decide +kernel
+example : opLt (.ptr .nil) (.int .int 1) = .ok false := less_nil _ _ (Or.inl (by decide +kernel))
 
 /-! ## `contains` -/
 
@@ -186,6 +210,8 @@ theorem contains_str (a b : GoVal) (s t : Bytes) (ha : strip a = .str s) (hb : s
 
 example : opContains (.str [97, 98, 99]) (.str [98, 99]) = .ok true ∧
     opContains (.str [97, 98, 99]) (.str [99, 98]) = .ok false := by decide +kernel
+example : opContains (.str [97, 98, 99]) (.drop (.str [98, 99])) = .ok (containsB [97, 98, 99] [98, 99]) :=
+  (contains_str _ _ _ _ (by rfl) (by rfl)).1
 
 /-- array `contains` is membership by `==` (`values.Equal`, the function behind `opEq`) -/
 theorem contains_arr (a b : GoVal) (xs : List GoVal) (ha : seqElems (strip a) = some xs) :
@@ -200,6 +226,9 @@ theorem contains_arr (a b : GoVal) (xs : List GoVal) (ha : seqElems (strip a) = 
 
 example : opContains (.slice .any [.int .int 1, .str [97]]) (.flt .f64 1) = .ok true ∧
     opContains (.slice .any [.int .int 1, .str [97]]) (.str [98]) = .ok false := by decide +kernel
+example : opContains (.slice .any [.int .int 1, .str [97]]) (.flt .f64 1) =
+    containsList [.int .int 1, .str [97]] (.flt .f64 1) :=
+  (contains_arr _ _ _ (by rfl)).1
 
 /-- map `contains` is key membership: the needle must have the map's key type -/
 theorem contains_map (a b : GoVal) (kt vt : Ty) (kvs : List (GoVal × GoVal))
@@ -222,6 +251,9 @@ theorem contains_map_str (a b : GoVal) (vt : Ty) (kvs : List (GoVal × GoVal)) (
 example : opContains (.map .str .any [(.str [97], .int .int 1)]) (.str [97]) = .ok true ∧
     opContains (.map .str .any [(.str [97], .int .int 1)]) (.str [98]) = .ok false ∧
     opContains (.map .str .any [(.str [97], .int .int 1)]) (.int .int 1) = .ok false := by decide +kernel
+example : ∃ r, opContains (.map .str .any [(.str [97], .int .int 1)]) (.drop (.str [97])) = .ok r ∧
+    (r = true ↔ some (Key.str [97]) ∈ keyList [(.str [97], .int .int 1)]) :=
+  contains_map_str _ _ _ _ _ (by rfl) (by rfl)
 
 /-! ## `and` / `or` -/
 
